@@ -133,6 +133,12 @@ def method_call(ex, st, recv, name, pos, kw, node):
             r = ex.as_ref(recv, st, node, name)
             r.h = inner
             return list_method(ex, st, r, name, pos, kw, node)
+        if (inner is None or inner.kind in ("val", "union")) and name in ("append", "remove", "pop", "index", "sort"):
+            # a list method on a value of unknown static type: it must be a list object
+            ex.oblige(st, "def", f"{name}-receiver-is-a-list", node,
+                      z3.And(Val.is_ref(recv.t), cls_of(Val.o(recv.t)) == ex.cid("LIST")))
+            r = SV("ref", Val.o(recv.t), Ty("list", name="Any"))
+            return list_method(ex, st, r, name, pos, kw, node)
     o = ex.as_ref(recv, st, node, f"receiver-of-{name}")
     return ex.call_method(st, o, name, pos, kw, node)
 
@@ -244,9 +250,11 @@ def dict_method(ex, st, d, name, pos, kw, node):
         key = ex.to_val(pos[0])
         dflt = ex.to_val(pos[1]) if len(pos) > 1 else Val.none
         term = z3.If(dh[d.t][key], dv[d.t][key], dflt)
+        if vty is not None:
+            ex.assume(st, z3.Implies(dh[d.t][key], z3.simplify(ex.type_pred(vty, dv[d.t][key], st, "val"))))
         return [(st, SV("val", term, vty if (vty is not None and vty.sort() == "val") else None))]
     if name == "keys":
-        return [(st, SV("seq", dk[d.t], Ty("seq", args=[kty] if kty else [])))]
+        return [(st, SV("seq", ex.dict_keys(st, d.t), Ty("seq", args=[kty] if kty else [])))]
     if name == "values":
         vs = fresh("dvals", Seq)
         j = z3.Int(f"j!{next(_uid)}")
@@ -482,8 +490,9 @@ def parse_modifies(ex, st, env, entries):
         where = None
         if "@" in ent:
             name, where = ent.split("@", 1)
+            name = name.strip()
         else:
-            name = ent
+            name = ent.strip()
         kindsel = None
         if "[" in name:
             name, kindsel = name[:-1].split("[", 1)
@@ -493,11 +502,31 @@ def parse_modifies(ex, st, env, entries):
             heapnames = ["$dv", "$dh", "$dk"]
         if kindsel is not None:
             preds.append(role_of(o) == ex.rid(kindsel))
+        if where is not None and where.strip().startswith("lambda"):
+            lam = ast.parse(where.strip(), mode="eval").body
+            pname = lam.args.args[0].arg
+            ex.spec_mode += 1
+            saved_q, saved_b = ex.quant_facts, ex.bound_vars
+            ex.quant_facts = []
+            ex.bound_vars = tuple(saved_b) + (o,)
+            try:
+                s = State()
+                s.heap, s.pc, s.known, s.epoch = st.heap, st.pc, st.known, st.epoch
+                s.env = dict(env)
+                s.env[pname] = SV("ref", o, None)
+                pv = ex.truthy(ex.ev1(lam.body, s), s)
+                st.heap = s.heap
+            finally:
+                ex.spec_mode -= 1
+                ex.quant_facts, ex.bound_vars = saved_q, saved_b
+            preds.append(pv)
+            where = None
         if where is not None:
             ex.spec_mode += 1
             try:
                 s = State()
                 s.heap, s.pc, s.known = st.heap, st.pc, st.known
+                s.epoch = st.epoch
                 s.env = dict(env)
                 tgt = ex.ev1(ast.parse(where.strip(), mode="eval").body, s)
                 st.heap = s.heap
@@ -792,6 +821,7 @@ def _minmax(is_max):
                     raise Unsupported("min/max key not a lambda", e)
                 kfh = kv.h
             s.assume(Contains(sq, r))
+            s.assume(smt.index_fact(sq, r))
             rsv = ex.wrap_elem(r, ety, s)
             facts = []
             saved, savedd = ex.quant_facts, ex.defs_collector
@@ -856,7 +886,16 @@ def b_sorted(ex, st, e):
         s.assume(smt.forall([x], Contains(r, x) == Contains(sq, x), patterns=[Contains(r, x)]))
         s.assume(smt.forall([x], Contains(r, x) == Contains(sq, x), patterns=[Contains(sq, x)]))
         j = z3.Int(f"j!{next(_uid)}")
-        s.assume(smt.forall([j], z3.Implies(z3.And(0 <= j, j < Len(r)), Contains(sq, At(r, j))), patterns=[At(r, j)]))
+        s.assume(smt.forall([j], z3.Implies(z3.And(0 <= j, j < Len(r)), z3.And(Contains(sq, At(r, j)), smt.elem_fact(r, j))),
+                            patterns=[At(r, j)]))
+        # every member of the sorted list sits at some position of it (witness, scoped to this list),
+        # and every position of the source has a position in the result
+        s.assume(smt.forall([x], z3.Implies(Contains(r, x), At(r, IndexOf(r, x)) == x), patterns=[Contains(r, x)]))
+        s.assume(smt.forall([x], z3.Implies(Contains(sq, x), At(sq, IndexOf(sq, x)) == x), patterns=[Contains(sq, x)]))
+        pinv = z3.Function(f"pinv!{next(_uid)}", I, I)
+        s.assume(smt.forall([j], z3.Implies(z3.And(0 <= j, j < Len(sq)),
+                                            z3.And(0 <= pinv(j), pinv(j) < Len(r), At(r, pinv(j)) == At(sq, j))),
+                            patterns=[At(sq, j)]))
         key = ex.ev1(kws["key"], s) if "key" in kws else None
         rev = ex.ev1(kws["reverse"], s) if "reverse" in kws else None
         _assume_sorted(ex, s, r, key, rev, ety, e)
